@@ -124,9 +124,9 @@ def renderYaml (raw : RawConfig) : String :=
   let b (x : Bool) := if x then "true" else "false"
   let list (xs : List String) := "[" ++ ", ".intercalate xs ++ "]"
   let nf (m : RawMap) := "    - {field: " ++ toString m.type ++ ", pen: " ++ toString m.pen ++ ", penprovided: " ++ b m.penProvided ++
-    ", destination: " ++ yq m.destination ++ (if m.endian = "" then "" else ", endianness: " ++ yq m.endian) ++ "}\n"
+    ", destination: " ++ yq m.destination ++ (if m.endian = "" then "" else (if m.shortKey then ", endian: " else ", endianness: ") ++ yq m.endian) ++ "}\n"
   let lm (m : RawMap) := "    - {layer: " ++ yq m.layer ++ ", encap: " ++ b m.encap ++ ", offset: " ++ toString m.offset ++ ", length: " ++ toString m.length ++
-    ", destination: " ++ yq m.destination ++ (if m.endian = "" then "" else ", endianness: " ++ yq m.endian) ++ "}\n"
+    ", destination: " ++ yq m.destination ++ (if m.endian = "" then "" else (if m.shortKey then ", endian: " else ", endianness: ") ++ yq m.endian) ++ "}\n"
   let renames : List (String × String) := raw.rename.map fun (k, v) => (k, (String.fromUTF8? (ByteArray.mk v.toArray)).getD "")
   "formatter:\n" ++
   (if raw.fields.isEmpty then "" else "  fields: " ++ list (raw.fields.map yq) ++ "\n") ++
